@@ -7,7 +7,7 @@
 // start/end links written into the list are in range and point backwards / forwards correctly.
 //@assume quick-xml Reader model: read_event_into returns an arbitrary event or error and consumes at least one byte (and at least one per newline reported) of an input of fewer than usize::MAX bytes; the reader reaches Eof or an error after finitely many events (termination of from_reader's `loop` is by the input length: decreases on the unread byte budget)
 //@assume inner_events / all_events: the element's event_range lies within context.events (precondition: the range comes from from_reader's links via tagify_events and set_event_range; not proved as a global invariant of the element table)
-//@assume is_xml_blank (a six-line byte loop over the payload; `&BytesText` derefs to `[u8]`) is taken by its obvious meaning xml_blank(); R-abstract: counting newlines of an event (iterator + closure) is event_lines(); the trailing-indent computation on the text (rsplit_once / trim_end_matches) is trailing_indent(); SvgElement::try_from(InputEvent) is opaque
+//@assume R-deref: `is_xml_blank(t)` with `t: &BytesText` is `is_xml_blank(bytes_of(t))` (quick-xml's Deref to the raw payload bytes); R-abstract: counting newlines of an event (iterator + closure) is event_lines(); the trailing-indent computation on the text (rsplit_once / trim_end_matches) is trailing_indent(); SvgElement::try_from(InputEvent) is opaque
 use vstd::prelude::*;
 //@prelude fmt_macro
 verus! {
@@ -88,9 +88,18 @@ impl Tag {
 }
 /// white space as XML allows it between markup outside the root element: blank, tab, CR, LF
 pub open spec fn xml_blank(b: Seq<u8>) -> bool { forall|i: int| 0 <= i < b.len() ==> (#[trigger] b[i] == 32u8 || b[i] == 9u8 || b[i] == 13u8 || b[i] == 10u8) }
-/// R-abstract: the byte loop of is_xml_blank applied to the text event's payload (`&BytesText` derefs to `[u8]`)
+/// quick-xml: `&BytesText` derefs to the raw payload bytes (`impl Deref<Target = [u8]> for BytesText`)
 #[verifier::external_body]
-pub fn is_xml_blank(t: &BytesText) -> (r: bool) ensures r == xml_blank(t.raw()) { unimplemented!() }
+pub fn bytes_of(t: &BytesText) -> (r: &[u8]) ensures r@ == t.raw() { unimplemented!() }
+//@item src/events.rs :: fn is_xml_blank
+//@ implicit C01
+//@ ensures
+//@ - r == xml_blank(bytes@)     @@C02.reader.blank_is_xml_white_space
+//@ loop 1
+//@ iter it
+//@ invariant
+//@ - forall|i: int| 0 <= i < it.index@ ==> (#[trigger] bytes@[i] == 32u8 || bytes@[i] == 9u8 || bytes@[i] == 13u8 || bytes@[i] == 10u8)     @@C02.reader.blank_is_xml_white_space
+//@end
 
 impl InputList {
 //@item src/events.rs :: impl InputList :: fn len
@@ -101,6 +110,7 @@ impl InputList {
 //@item src/events.rs :: impl InputList :: fn from_reader
 //@ implicit C01
 //@ replace[R-opaque-type] <<<reader: &mut dyn BufRead>>> => <<<reader: &mut DynBufRead>>>
+//@ replace?[R-deref] <<<is_xml_blank(t)>>> => <<<is_xml_blank(bytes_of(t))>>>
 //@ replace[R-reader] <<<let mut reader = Reader::from_reader(reader);>>> => <<<let mut reader = XmlReader::from_reader(reader);>>>
 //@ cut[R-abstract] <<<            let event_lines = if let Ok(ok_ev) = ev.clone() {>>> .. <<<                0\n            };>>> => <<<            let event_lines = event_lines(&ev);>>>
 //@ cut[R-abstract] <<<                    let mut t_str = String::from_utf8(t.to_vec())?;>>> .. <<<                    indent = t_str.len() - t_str.trim_end_matches(' ').len();>>> => <<<                    indent = trailing_indent(t)?;>>>
